@@ -7,7 +7,12 @@
 (* action is total: a mismatch sets `err` to the name of the failing       *)
 (* clause; Finish prints one verdict per trace.                            *)
 (*                                                                         *)
-(* Trace := [kind: "normal"|"pipe"|"bypass", cap: Nat, ev: Seq(Event)]     *)
+(* Trace := [kind: "normal"|"pipe"|"bypass"|"bypass2chain", cap: Nat,       *)
+(*           ev: Seq(Event)]                                               *)
+(* kind "bypass2chain" (cap = 2) selects FifoChain.tla -- the series       *)
+(* composition of two one-entry bypass queues, which is what               *)
+(* enrdy_queues.BypassQueue2RTL implements -- as the model instead of      *)
+(* Fifo.tla; its model state is the pair <<b1, b2>>.                       *)
 (* Event := [k |-> "reset", c2]                                            *)
 (*        | [k |-> "cycle",                                                *)
 (*           eo, do : 0/1        offers of producer / consumer             *)
@@ -26,13 +31,27 @@
 (*           pk     : <<>> or <<eb, db, rdy, msg>>  CL queues: peek.rdy(), *)
 (*                               peek() observed by a third block that ran *)
 (*                               after the producer (eb=1) / consumer      *)
-(*                               (db=1) block of the same cycle ]          *)
+(*                               (db=1) block of the same cycle            *)
+(*           st     : <<>> or <<n1, n2>>  occupancy of the two stages of a *)
+(*                               chain after the clock edge ]              *)
 (***************************************************************************)
 EXTENDS Integers, Sequences, FiniteSets, TLC, Json, IOUtils
 
 F == INSTANCE Fifo WITH Kind <- "normal", Cap <- 1, Msgs <- {}, MaxHist <- 0,
                         q <- <<>>, out <- <<>>, accepted <- <<>>, delivered <- <<>>
-   \* only the pure operators parameterised by (kind, cap) are used here
+C == INSTANCE FifoChain WITH Msgs <- {}, MaxHist <- 0,
+                             b1 <- <<>>, b2 <- <<>>, out <- <<>>, accepted <- <<>>, delivered <- <<>>
+   \* only the pure operators parameterised by (kind, cap) / (s1, s2) are used here
+
+\* the model and its state: the contents q for the kinds of Fifo.tla, <<b1, b2>> for the chain
+ChainKind  == "bypass2chain"
+IsChain(k) == k = ChainKind
+InitSt(k)  == IF IsChain(k) THEN << <<>>, <<>> >> ELSE <<>>
+Contents(k, st) == IF IsChain(k) THEN C!Contents(st[1], st[2]) ELSE st
+Exp(k, c, st, eo, m, do) == IF IsChain(k) THEN C!Outputs(st[1], st[2], eo, m, do)
+                                          ELSE F!Outputs(k, c, st, eo, m, do)
+NextSt(k, c, st, eo, m, do) == IF IsChain(k) THEN C!NextSt(st[1], st[2], eo, m, do)
+                                             ELSE F!NextQ(k, c, st, eo, m, do)
 
 Input  == JsonDeserialize(IOEnv.VERIF_INPUT)
 Traces == Input.traces
@@ -47,14 +66,14 @@ Range(s) == {s[i] : i \in DOMAIN s}
 
 Init == /\ tid \in 1 .. Len(Traces)
         /\ l = 1 /\ err = "ok" /\ fin = FALSE
-        /\ q = <<>> /\ nacc = 0 /\ ndel = 0
+        /\ q = InitSt(Traces[tid].kind) /\ nacc = 0 /\ ndel = 0
 
 Fail(c) == err' = c /\ UNCHANGED <<tid, l, fin, q, nacc, ndel>>
 
 ResetEv ==
     /\ Ev.k = "reset"
     /\ IF Ev.c2 # -1 /\ Ev.c2 # 0 THEN Fail("reset-does-not-empty")
-       ELSE /\ q' = <<>> /\ l' = l + 1 /\ UNCHANGED <<tid, err, fin, nacc, ndel>>
+       ELSE /\ q' = InitSt(T.kind) /\ l' = l + 1 /\ UNCHANGED <<tid, err, fin, nacc, ndel>>
 
 \* contents seen by the CL observer block
 PeekView(s, m, ex, dx, eb, db) ==
@@ -68,17 +87,20 @@ CycleEv ==
            eo  == B(Ev.eo)
            do  == B(Ev.do)
            m   == Ev.m
-           er  == F!EnqRdy(k, c, q, eo, do)
-           dr  == F!DeqRdy(k, c, q, eo, do)
-           ex  == F!EnqXfer(k, c, q, eo, do)
-           dx  == F!DeqXfer(k, c, q, eo, do)
-           q2  == F!NextQ(k, c, q, eo, m, do)
-           pv  == PeekView(q, m, ex, dx, B(Ev.pk[1]), B(Ev.pk[2]))
-       IN  IF k \notin F!Kinds \/ c < 1 \/ Ev.er \notin {0, 1, 2} \/ Ev.dr \notin {0, 1, 2}
+           cq  == Contents(k, q)
+           exp == Exp(k, c, q, eo, m, do)
+           er  == exp.enq_rdy
+           dr  == exp.deq_rdy
+           ex  == exp.enq_xfer
+           dx  == exp.deq_xfer
+           q2  == NextSt(k, c, q, eo, m, do)
+           pv  == PeekView(cq, m, ex, dx, B(Ev.pk[1]), B(Ev.pk[2]))
+       IN  IF k \notin (F!Kinds \cup {ChainKind}) \/ c < 1 \/ (IsChain(k) /\ c # C!Cap)
+              \/ Ev.er \notin {0, 1, 2} \/ Ev.dr \notin {0, 1, 2}
                                                        THEN Fail("bad-trace")
            ELSE IF Ev.bad # ""                          THEN Fail(Ev.bad)
            ELSE IF Ev.c > c \/ Ev.c2 > c                THEN Fail("count-exceeds-capacity")
-           ELSE IF Ev.c # -1 /\ Ev.c # Len(q)           THEN Fail("wrong-count")
+           ELSE IF Ev.c # -1 /\ Ev.c # Len(cq)          THEN Fail("wrong-count")
            ELSE IF Ev.er # 2 /\ B(Ev.er) # er           THEN Fail(IF er THEN "enq-rdy-low-but-kind-says-ready"
                                                                         ELSE "enq-rdy-high-but-kind-says-not-ready")
            ELSE IF Ev.dr # 2 /\ B(Ev.dr) # dr           THEN Fail(IF dr THEN "deq-rdy-low-but-kind-says-ready"
@@ -87,10 +109,12 @@ CycleEv ==
            ELSE IF B(Ev.dx) # dx                        THEN Fail(IF dx THEN "message-not-delivered"
                                                                         ELSE "delivery-without-offer-or-message")
            ELSE IF dx /\ Ev.dm = -1                     THEN Fail("delivered-message-missing")
-           ELSE IF Ev.dm # -1 /\ Ev.dm # F!DeqMsg(q, m) THEN Fail(IF Ev.dm \in Range(q)
+           ELSE IF Ev.dm # -1 /\ exp.deq_msg # <<Ev.dm>> THEN Fail(IF Ev.dm \in Range(cq)
                                                                   THEN "wrong-message-out-of-order"
                                                                   ELSE "wrong-message-not-in-queue")
-           ELSE IF Ev.c2 # -1 /\ Ev.c2 # Len(q2)        THEN Fail("wrong-count-after-edge")
+           ELSE IF Ev.c2 # -1 /\ Ev.c2 # exp.count2     THEN Fail("wrong-count-after-edge")
+           ELSE IF IsChain(k) /\ Len(Ev.st) = 2 /\ Ev.st # exp.st2
+                                                        THEN Fail("wrong-stage-occupancy")
            ELSE IF Len(Ev.pk) = 4 /\ B(Ev.pk[3]) # (Len(pv) > 0)
                                                         THEN Fail("peek-rdy")
            ELSE IF Len(Ev.pk) = 4 /\ Len(pv) > 0 /\ Ev.pk[4] # Head(pv)
